@@ -427,6 +427,15 @@ impl Check for C04 {
                 }
             }
         }
+        // one short name declared both as a flag and as an argument (reported as ambiguous where a
+        // block cannot be split): ASCII and multi-byte
+        for c in ['a', 'é', '日'] {
+            let flag = P::Switch(Names::short(c));
+            let arg = P::arg(Names::short(c), Ty::Os).opt();
+            let sub = P::cmd("cmd", Opts::new(P::Seq(vec![arg.clone()]))).opt();
+            out.push(serde_json::to_value(Unit { opts: Opts::new(P::Seq(vec![flag.clone(), sub])), len: 2, family: format!("nested-adjacent:-{c} -{c}{c} -{c}=v cmd v", c = c) }).unwrap());
+            out.push(serde_json::to_value(Unit { opts: Opts::new(P::Seq(vec![P::Alt(vec![P::Map(arg.bx(), "a".into()), P::Map(P::ReqFlag(Names::short(c)).bx(), "f".into())])])), len: 3, family: format!("nested-adjacent:-{c} -{c}{c} -{c}v v", c = c) }).unwrap());
+        }
         // families of the other properties
         for (o, f) in crate::checks::c19::group_shapes(seed) {
             out.push(serde_json::to_value(Unit { opts: o, len: tier.pick(2, 3), family: f }).unwrap());
